@@ -432,4 +432,6 @@ def const_value(pyval):
         return VTuple([const_value(x) for x in pyval])
     if isinstance(pyval, list):
         return VList(ConcreteSeq([const_value(x) for x in pyval]))
+    if isinstance(pyval, dict):
+        return VDict(items=[[const_value(k), const_value(v)] for k, v in pyval.items()])
     raise Unsupported(f"constant {pyval!r}")
